@@ -62,7 +62,10 @@ func genExpr(r *hx.Rng, sp *spec, depth int) string {
 		}
 		return e
 	}
-	switch r.Intn(11) {
+	switch r.Intn(12) {
+	case 11:
+		// names inside the argument list of a special function (which may itself not be allowed at the key)
+		return recase(r, "hashFiles") + "(" + a() + ", format('{0}', " + a() + "))"
 	case 0:
 		return "format('{0} {1}', " + a() + ", " + a() + ")"
 	case 1:
